@@ -326,20 +326,17 @@ fn check_v_contract(r: Result<(), DeErr>, vis: Visitor<MockSer>) {
 		Ok(()) => {
 			assert!(first() == 0, "Ok although one side failed");
 			unsafe { assert!(SER_POS == DE_POS, "every event reached the serializer"); }
-			kani::cover!(unsafe { DE_POS } >= 4, "collection with abstract children translated");
 		}
 		Err(e) => {
 			assert!(first() != 0, "Err although nobody failed");
 			assert!(src == first(), "the state blames the side that did not fail first");
 			if first() == 1 {
 				assert!(!e.synthetic && e.id == unsafe { FIRST_ID }, "the deserializer's own error must travel up");
-				kani::cover!(unsafe { DE_POS } >= 2, "deserializer failure below a collection");
 			} else {
 				match cap {
 					Some(c) => assert!(!c.synthetic && c.id == unsafe { FIRST_ID }, "the serializer's own error must be the captured one"),
 					None => assert!(false, "serializer error lost"),
 				}
-				kani::cover!(unsafe { SER_POS } >= 1, "serializer failure below a collection");
 			}
 		}
 	}
@@ -351,6 +348,9 @@ fn check_v_contract(r: Result<(), DeErr>, vis: Visitor<MockSer>) {
 fn tx_depth_induction_step() {
 	let mut visitor = Visitor::new(MockSer);
 	let r = StepDe { map: kani::any() }.deserialize_any(&mut visitor);
+	kani::cover!(r.is_ok() && unsafe { DE_POS } >= 4, "collection with abstract children translated");
+	kani::cover!(r.is_err() && first() == 1 && unsafe { DE_POS } >= 2, "deserializer failure below a collection");
+	kani::cover!(r.is_err() && first() == 2 && unsafe { SER_POS } >= 1, "serializer failure below a collection");
 	check_v_contract(r, visitor);
 }
 
@@ -360,6 +360,9 @@ fn tx_depth_induction_step() {
 fn tx_depth_induction_base() {
 	let mut visitor = Visitor::new(MockSer);
 	let r = MockDe { depth: 0 }.deserialize_any(&mut visitor);
+	kani::cover!(r.is_ok(), "scalar leaf translated");
+	kani::cover!(r.is_err() && first() == 1, "leaf deserializer failure");
+	kani::cover!(r.is_err() && first() == 2, "leaf serializer failure");
 	check_v_contract(r, visitor);
 }
 
